@@ -445,6 +445,17 @@ func (u *Unit) call(ev *Ev, x *ast.CallExpr, callee types.Object) Value {
 						}
 					}
 				}
+				if fsig, ok := c.Type().(*types.Signature); ok && fsig.Recv() != nil && r.K == vStruct && len(idx) == 1 && !isOpaqueStruct(r.Typ) {
+					if _, ptrRecv := fsig.Recv().Type().(*types.Pointer); ptrRecv {
+						// x.f.M() with pointer receiver M on the struct held in field f: the receiver is &x.f
+						if lv := ev.lvalue(sel.X); lv != nil && lv.K == lvHeap && lv.Ref != "" {
+							fa := u.declareFun(quote("fieldaddr:"+lv.Prefix), []Sort{SRef}, SRef)
+							av := Value{K: vAddr, LV: lv, Typ: types.NewPointer(r.Typ), S: SRef, T: app(fa, lv.Ref)}
+							ev.st.assume(not(app("=", av.T, "nil")))
+							r = av
+						}
+					}
+				}
 				if r.K == vStruct && len(r.Comp) == 0 && isOpaqueStruct(r.Typ) {
 					// method on an opaque struct held in a field (sync/atomic values): the receiver is identified by the field's address
 					r = scalar(u.objKey(ev, sel.X), SRef, types.NewPointer(r.Typ))
